@@ -2,9 +2,47 @@ package main
 
 import "strings"
 
+const c13ReturnReplay = `package mocker
+
+import "testing"
+
+//go:noinline
+func govcC13Target(i int) int { return i + 1 }
+
+// too few return values (none at all) for a function with one result
+func TestGovcReplay(t *testing.T) {
+	mk := Create()
+	defer mk.Reset()
+	rejected := false
+	func() {
+		defer func() {
+			if recover() != nil {
+				rejected = true
+			}
+		}()
+		mk.Func(govcC13Target).Return()
+	}()
+	if !rejected {
+		t.Errorf("Return() with no values for a function with one result was accepted at configuration time")
+	}
+	func() {
+		defer func() {
+			if r := recover(); r != nil {
+				t.Errorf("the rejected configuration left the target patched: calling it panics: %v", r)
+			}
+		}()
+		if got := govcC13Target(1); got != 2 {
+			t.Errorf("the rejected configuration left the target mocked: got %d", got)
+		}
+	}()
+}
+`
+
 func replayC13(o *Options, g *groupResult, model map[string]string) (string, string, bool) {
 	name := g.name
 	switch {
+	case strings.Contains(name, "too_few_return_values_rejected_up_front"):
+		return ".", c13ReturnReplay, true
 	case strings.HasPrefix(name, "erro.New") && strings.Contains(name, "cause_chain_walkable"):
 		ctor := strings.TrimPrefix(strings.SplitN(name, "#", 2)[0], "erro.")
 		call := ctor + `("p", "v")`
